@@ -1,9 +1,9 @@
 (* C08 - the front end is total on arbitrary bytes.
    Only property theorems (closed by [exact]), non-vacuity examples and Print Assumptions. *)
-From Coq Require Import List ZArith NArith Bool.
+From Coq Require Import List ZArith NArith Bool String.
 From GrolGen Require Import Gen_Consts.
 From GrolModel Require Import Ast Lexer Parser Printer AstWf Frontend.
-From GrolProofs Require Import Front_tables Printer_proofs.
+From GrolProofs Require Import Front_tables Printer_proofs Parser_proofs.
 Import ListNotations.
 
 (* every parse function registered in parser.New is one the parser model implements (so the model
@@ -22,6 +22,29 @@ Theorem C08_print_total : forall (stmts : list (option node)) (compact allparens
   program_printable stmts = true -> exists out, print_program compact allparens stmts = Some out.
 Proof. exact print_total. Qed.
 
+(* a parse that reports no error and asks for no continuation returns a tree without missing children:
+   for every byte string, both lexer modes, every number-conversion oracle (and every fuel) *)
+Theorem C08_clean_tree_has_no_missing_children : forall (conv : numconv) (lineMode : bool) (src : bytes) r,
+  front_parse conv lineMode src = POk r -> clean r = true -> program_nil_free (pr_tree r) = true.
+Proof. intros conv lineMode src r. exact (clean_tree_nil_free conv _ _ _ r). Qed.
+
+(* ... and that tree can be printed in every mode without panicking *)
+Theorem C08_clean_tree_prints : forall (conv : numconv) (lineMode : bool) (src : bytes) r (compact allparens : bool),
+  front_parse conv lineMode src = POk r -> clean r = true ->
+  exists out, print_program compact allparens (pr_tree r) = Some out.
+Proof.
+  intros conv lineMode src r compact allparens H Hc. apply print_total.
+  exact (clean_tree_printable conv _ _ _ r H Hc).
+Qed.
+
+(* non-vacuity: a source that parses cleanly in both modes *)
+Example C08_clean_example :
+  match front_parse (mkConv (fun _ => None) (fun _ => None)) false (bytes_of_string "f = (a, b) => { a[b:] }; f(c, d)"%string) with
+  | POk r => clean r && program_nil_free (pr_tree r) | _ => false end = true.
+Proof. vm_compute. reflexivity. Qed.
+
 Print Assumptions C08_tables_known.
+Print Assumptions C08_clean_tree_has_no_missing_children.
+Print Assumptions C08_clean_tree_prints.
 Print Assumptions C08_printer_tokens_have_prec.
 Print Assumptions C08_print_total.
